@@ -4,7 +4,7 @@ from vlib import standard_pipeline, standard_replay, finish
 
 RULE = ("every complete behaviour of the HttpParse grammar machine, one dimension exhaustively per family (header lines: names in four letter "
         "cases, repeated names, long and spaced values; every one of the 39 non-framing standard header names in four cases through its typed accessor and get(); targets x queries x methods; bodies: four sizes around the 1 KiB buffer x first byte "
-        "NUL or not x NUL inside x Content-Length spelling; 30 fault actions on three base requests), `-simulate` over the full product and "
+        "NUL or not x NUL inside x Content-Length spelling; 30 fault actions on three base requests; deliveries: whole, cut in two reads at every position of the head, after an earlier request on the same connection object), `-simulate` over the full product and "
         "seeded random requests with up to 6 header lines; non-trivial = a fault, or a body, or a header name in unusual case, or a repeated name")
 TRACE = ("Trace_HttpParse", "Trace_HttpParse.cfg")
 
@@ -21,6 +21,7 @@ def run(ctx):
            ("HttpParseGen", "Gen_HttpParse_target_q.cfg" if q else "Gen_HttpParse_target.cfg", dict(workers=6, timeout=1200)),
            ("HttpParseGen", "Gen_HttpParse_body.cfg", dict(workers=2)),
            ("HttpParseGen", "Gen_HttpParse_faults.cfg", dict(workers=4)),
+           ("HttpParseGen", "Gen_HttpParse_delivery.cfg", dict(workers=4)),
            ("HttpParseGen", "Gen_HttpParse_sim.cfg", dict(workers=4, simulate="num=%d" % (150 if q else 3000), depth=40, name="gen-sim", timeout=1200))]
     standard_pipeline(ctx, sub="parse", gen=gen, trace=TRACE, random_n=3000 if q else 60000, nontrivial=nontrivial,
                       dedupe_key=lambda s: json.dumps(s["req"], sort_keys=True), chunk=30000)
@@ -28,7 +29,7 @@ def run(ctx):
                   assumptions=["only clearly malformed inputs are generated (no optional-whitespace variants, no obsolete line folding, no conflicting duplicate Content-Length)",
                                "a bare-LF head may be accepted or refused; which error status is returned is free; closing the connection is always acceptable for malformed input",
                                "well-formed header values carry no leading or trailing white space",
-                               "the bytes are presented as the first read of a connection (segmentation is C06's business)"],
+                               "beyond the first read of a connection, only two deliveries are exercised here: the head cut in two reads, and the read after one earlier request (arbitrary segmentations and request sequences are C06's and C05's business)"],
                   trusted=["harness/src/parse.rs: concretisation table and fault applier (pure concatenation, no parsing), reverse table for observed values",
                            "harness/src/util.rs ScriptedReader (records starvation)"])
 
